@@ -646,11 +646,12 @@ func Forall(vars []*Term, body *Term, pattern ...*Term) *Term {
 	args := append([]*Term{body}, vars...)
 	t := &Term{Op: "forall", Sort: SBool, Args: args}
 	if len(pattern) > 0 {
+		// each pattern is an alternative trigger
 		var ps []string
 		for _, p := range pattern {
 			ps = append(ps, p.SMT())
 		}
-		t.Name = strings.Join(ps, " ")
+		t.Name = strings.Join(ps, "\x00")
 	}
 	return t
 }
@@ -720,7 +721,11 @@ func (t *Term) SMT() string {
 		}
 		b.WriteString(") ")
 		if t.Name != "" {
-			b.WriteString("(! " + t.Args[0].SMT() + " :pattern (" + t.Name + "))")
+			b.WriteString("(! " + t.Args[0].SMT())
+			for _, p := range strings.Split(t.Name, "\x00") {
+				b.WriteString(" :pattern (" + p + ")")
+			}
+			b.WriteString(")")
 		} else {
 			b.WriteString(t.Args[0].SMT())
 		}
